@@ -187,6 +187,12 @@ class Unsigned(BitVector):
             rhs = -(rhs % 2**self.width)
 
         else:
+            if isinstance(rhs, Unsigned):
+                # negate at the width of the result, not at the (possibly smaller) width of rhs
+                if target_width is None:
+                    target_width = max(self.width, rhs.width)
+                rhs = rhs.resize(max(target_width, rhs.width))
+
             rhs = -rhs
 
         return self.add(rhs, target_width)
